@@ -104,9 +104,12 @@ pub fn tok_eq(impl_t: &str, model_t: &str, m: Mode) -> bool {
             MTok::Degen => v.is_infinite(),
             MTok::Val(x) => v.is_finite() && close(v, x, m.rel),
             MTok::Root(s, q) => {
+                // either the square matches and the sign is right, or the value itself is within the
+                // (possibly history-scaled, DESIGN 5.1) tolerance of sign * sqrt(q)
                 v.is_finite()
-                    && close(v * v, q, 2. * m.rel)
-                    && (if s > 0 { v >= 0. } else if s < 0 { v <= 0. } else { v.abs() <= 1e-6 })
+                    && ((close(v * v, q, 2. * m.rel)
+                        && (if s > 0 { v >= 0. } else if s < 0 { v <= 0. } else { v.abs() <= 1e-6 }))
+                        || close(v, s as f64 * q.sqrt(), m.rel))
             },
             MTok::Lit => false,
         };
